@@ -12,7 +12,7 @@ import (
 )
 
 const c15Rule = "generated incidence structures: 1-3 cache names x 1-3 real caches each (ShardedMap/SyncMap behind a fault wrapper), 3-30 ops (writes to one/all caches of a name, AddLabels with 1-3 labels incl. duplicates and repeated labelling, fault-free intermediate invalidations) and a final InvalidateByLabels with 0-4 labels in any order incl. duplicates; " +
-	"for every structure the failing Delete position is ENUMERATED 0..#deletes of the final call, each followed by a fault-free retry; oracle: nil => every currently labelled key absent from all caches of its name, keys never labelled with those labels untouched, count == entries actually removed; " +
+	"for every structure the failing Delete position is ENUMERATED 0..#deletes of the final call, each followed by a fault-free retry, and EVERY Delete position is enumerated once more for a re-entrant AddLabels of an invalidated label (the index mutex is not held while deleters run); oracle: nil => every currently labelled key absent from all caches of its name, keys never labelled with those labels untouched, count == entries actually removed; " +
 	"failure => no panic, the injected error returned, count == removed so far, retry removes every originally labelled key; non-trivial = a failure position behind >=2 already deleted keys of a label, or a key with >=2 invalidated labels, or a duplicate label argument"
 
 // TestC15Labels: label invalidation is complete, precise and loses nothing on failure.
@@ -46,6 +46,7 @@ type faultDeleter struct {
 	calls  *int
 	failAt *int
 	err    error
+	w      *lblWorld
 }
 
 func (f faultDeleter) Delete(ctx context.Context, key []byte) error {
@@ -54,6 +55,12 @@ func (f faultDeleter) Delete(ctx context.Context, key []byte) error {
 
 	if n == *f.failAt {
 		return f.err
+	}
+
+	// Re-entrant client action at an enumerated position of a running invalidation: the index
+	// mutex is not held while deleters run, so a (concurrent) AddLabels may land exactly here.
+	if f.w != nil && f.w.injectArmed && n == f.w.injectAt && f.w.inject != nil {
+		f.w.inject()
 	}
 
 	return f.d.Delete(ctx, key)
@@ -119,10 +126,15 @@ type lblWorld struct {
 	injErr  error
 	current []map[string]map[string]bool // name -> label -> keys currently labelled
 	ever    []map[string]map[string]bool
+	// re-entrant AddLabels injected at delete call #injectAt of the final invalidation
+	injectAt    int
+	injectArmed bool // only the final invalidation of a run is subject to the injection
+	inject      func()
+	during   []lblOp
 }
 
 func newLblWorld(c *Case, st *lblStructure) *lblWorld {
-	w := &lblWorld{c: c, st: st, failAt: -1, injErr: errors.New("injected delete failure")}
+	w := &lblWorld{c: c, st: st, failAt: -1, injectAt: -1, injErr: errors.New("injected delete failure")}
 	w.idx = cache.NewInvalidationIndex()
 
 	cfg := cache.Config{ExpirationJitter: -1, DeleteExpiredJobInterval: farFuture, DeleteExpiredAfter: farFuture}
@@ -133,7 +145,7 @@ func newLblWorld(c *Case, st *lblStructure) *lblWorld {
 		for i := 0; i < st.ncaches[n]; i++ {
 			be := newCaseBackend(c, st.kinds[n][i], cfg)
 			row = append(row, be)
-			w.idx.AddCache(lblNames[n], faultDeleter{d: be.Deleter(), calls: &w.calls, failAt: &w.failAt, err: w.injErr})
+			w.idx.AddCache(lblNames[n], faultDeleter{d: be.Deleter(), calls: &w.calls, failAt: &w.failAt, err: w.injErr, w: w})
 		}
 
 		w.caches = append(w.caches, row)
@@ -258,6 +270,19 @@ func (w *lblWorld) invalidate(labels []string, failAt int, trace bool) error {
 		}
 	}
 
+	// labels added while the call was running are indexed from now on
+	for _, op := range w.during {
+		for _, l := range op.labels {
+			if w.current[op.name][l] == nil {
+				w.current[op.name][l] = map[string]bool{}
+			}
+
+			w.current[op.name][l][op.key] = true
+		}
+	}
+
+	w.during = nil
+
 	return nil
 }
 
@@ -310,7 +335,9 @@ func (w *lblWorld) run(finalFail int, trace bool) int {
 		}
 	}
 
+	w.injectArmed = true
 	err := w.invalidate(w.st.final, finalFail, trace)
+	w.injectArmed = false
 	issued := w.calls
 
 	if err != nil {
@@ -393,6 +420,46 @@ func propLabels(c *Case) {
 	for p := 0; p < issued; p++ {
 		w := newLblWorld(c, st)
 		w.run(p, false)
+	}
+
+	// enumerate every position for a re-entrant AddLabels (a label of the running invalidation is
+	// attached to another key while the deleters run), followed by a second invalidation
+	if issued > 0 && len(st.final) > 0 {
+		inj := lblOp{kind: 2, name: c.Pick("inject.name", len(st.ncaches)), key: lblKeys[c.Pick("inject.key", len(lblKeys))]}
+		inj.labels = []string{st.final[c.Pick("inject.label", len(st.final))]}
+
+		if c.Bool("inject.second-label") {
+			inj.labels = append(inj.labels, lblLabels[c.Pick("inject.label2", len(lblLabels))])
+		}
+
+		for p := 0; p < issued; p++ {
+			w := newLblWorld(c, st)
+			w.injectAt = p
+			w.inject = func() {
+				k, poison := poisonKey([]byte(inj.key))
+				w.idx.AddLabels(lblNames[inj.name], k, inj.labels...)
+				poison()
+
+				w.during = append(w.during, inj)
+
+				for _, l := range inj.labels {
+					if w.ever[inj.name][l] == nil {
+						w.ever[inj.name][l] = map[string]bool{}
+					}
+
+					w.ever[inj.name][l][inj.key] = true
+				}
+
+				w.inject = nil
+			}
+			w.run(-1, false)
+
+			// everything labelled before or during the first call is gone after a second call
+			err := w.invalidate(append(append([]string{}, st.final...), inj.labels...), -1, false)
+			c.Assert(err == nil, "unexpected-error", "second invalidation returned %v", err)
+		}
+
+		c.Class("reentrant-addlabels-enumerated")
 	}
 
 	st2 := statsFor("C15", "C15Labels", c15Rule)
